@@ -1,6 +1,6 @@
 # C10: compressed size is bounded and repetition is actually exploited.
 from lzcommon import (LZCheckMixin, PropertyCheck, Case, compress_inputs, parse_compress_out, parse_hex, hexb, periodic,
-                      rand_bytes, shrink_bytes, ceil_div, spread_heavy, structured_input)
+                      rand_bytes, shrink_bytes, ceil_div, spread_heavy, structured_input, long_compressible_inputs)
 
 FORMATS = {"lz10c": (4, 2, 18), "lz13c": (8, 4, 4096)}     # header, bytes per reference, maximum match length
 
@@ -77,6 +77,10 @@ class C10(LZCheckMixin, PropertyCheck):
         for n in range(0, 70):
             for kind in ("lz10c", "lz13c"):
                 add(kind, bytes((i * 37 + 11) % 251 for i in range(n)), "expansion-all-literals")
+        # repeats that continue beyond the longest LZ11 match (65808 bytes), 2^17, ~140000: implementation + inequalities only
+        for name, data, _ in long_compressible_inputs(rng, tier):
+            for kind in ("lz10c", "lz13c"):
+                add(kind, data, "long-compressible-" + name)
         return spread_heavy(cases, weight=lambda c: 0 if c.line.split(" ")[1] == "0" else len(c.line))
 
     def nontrivial(self, case, impl_out):
